@@ -308,6 +308,14 @@ static void do_op(const char *op, int a, int b, const char *text)
         long s = 0; for (size_t i = 0; i < n; i++) s += v[i];
         res_arr((long)n, s); free(v);
     }
+    else if (!strcmp(op, "item_combine")) { sim_phase(1); int r = SIM_Item_combine(&h[a], &h[b]); sim_phase(0); res_int(r); }
+    else if (!strcmp(op, "pass_item")) { sim_phase(1); int r = SIM_pass_item(h[a]); sim_phase(0); res_int(r); }
+    else if (!strcmp(op, "vec_dot")) {
+        int *va = (int *)exact(sizeof(int) * a), *vb = (int *)exact(sizeof(int) * b);
+        for (int i = 0; i < a; i++) va[i] = i + 1;
+        for (int i = 0; i < b; i++) vb[i] = 2 * (i + 1);
+        sim_phase(1); int r = SIM_vec_dot_bufferify(va, a, vb, b); sim_phase(0); res_int(r); free(va); free(vb);
+    }
     else if (!strcmp(op, "vec_inout_alloc")) {
         int *v = (int *)exact(sizeof(int) * a); for (int i = 0; i < a; i++) v[i] = i + 1;
         sim_phase(1); SIM_vec_inout_alloc_bufferify(v, a, &d);
